@@ -1440,8 +1440,8 @@ func TestVerifC20(t *testing.T) {
 	}
 
 	// ---- family 5: structured IPv6 chains --------------------------------------------------------------------------
-	fullLen := mc.Pick(c, 3, 5)
-	maxLen := 10
+	fullLen := mc.Pick(c, 3, 6)
+	maxLen := mc.Pick(c, 10, 14)
 	chains := c20Chains(fullLen, maxLen)
 	uppers := c20Uppers(thorough)
 	lenModes := mc.Pick(c, []int{0, 2}, []int{0, 1, 2, 3})
@@ -1646,5 +1646,5 @@ func TestVerifC20(t *testing.T) {
 	c.Assume("ports are compared for TCP and UDP only; for IPv4 protocols without ports nebula copies the first four payload bytes into the port fields, which the statement does not define (counted in info_v4_portless_protocol_with_nonzero_ports)")
 	c.Assume("the ICMP identifier is compared for echo-style messages only (v4 types 0,8,13-18; v6 128,129); LocalPort must be 0 for ICMP as documented on firewall.Packet")
 	c.Assume("non-first fragments: ports must be 0, IPHdrLen is not compared, and Protocol is the fragment header's next-header field even when that names an extension header (the rest of the chain is in the first fragment; Linux netfilter reports the same). Counted in info_v6_non_first_fragment_whose_fragmented_protocol_is_an_extension_header")
-	c.Assume("byte strings longer than the box (more than one edit away from a seed, chains longer than 10 or mixing more than two header kinds beyond length " + fmt.Sprint(fullLen) + ") are not explored")
+	c.Assume("byte strings longer than the box (more than one edit away from a seed, chains longer than " + fmt.Sprint(maxLen) + " or mixing more than two header kinds beyond length " + fmt.Sprint(fullLen) + ") are not explored")
 }
